@@ -12,6 +12,14 @@ struct url {
   opt_str_t host; str_t path; opt_str_t query; opt_str_t hash; opt_uint16_t port; str_t username; str_t password;
   str_t non_special_scheme;
 };
+typedef struct { _Bool has; struct url_aggregator v; } result_url_aggregator_t;   /* ada::result<url_aggregator> = tl::expected<url_aggregator, errors> */
+typedef struct { const char *data; size_t length; } ada_string;
+typedef struct { const char *data; size_t length; } ada_owned_string;
+typedef struct { uint32_t protocol_end, username_end, host_start, host_end, port, pathname_start, search_start, hash_start; } ada_url_components;
+static inline result_url_aggregator_t *NEW__result_url_aggregator_t(result_url_aggregator_t v) {
+  result_url_aggregator_t *p = (result_url_aggregator_t *)malloc(sizeof(result_url_aggregator_t));
+  __CPROVER_assume(p != (void *)0);      /* allocation succeeds (global assumption) */
+  *p = v; return p; }
 #define OMITTED 0xffffffffu
 /* ada::get_max_input_length(): a relaxed atomic load of the process-wide limit; modelled as an arbitrary but fixed value */
 extern uint32_t g_max_input_length;
